@@ -59,6 +59,7 @@ func (t *vTransport) record(s vSent) {
 
 func (t *vTransport) SendAppendEntries(address string, request AppendEntriesRequest) (AppendEntriesResponse, error) {
 	bg := vInBackground()
+	_ = makeProtoAppendEntriesRequest(request) // what the bundled transport does with it, lock released
 	t.record(vSent{kind: "AE", addr: address, bg: bg, ae: request})
 	if bg || t.onAE == nil {
 		return AppendEntriesResponse{}, errVBackground
@@ -68,6 +69,7 @@ func (t *vTransport) SendAppendEntries(address string, request AppendEntriesRequ
 
 func (t *vTransport) SendRequestVote(address string, request RequestVoteRequest) (RequestVoteResponse, error) {
 	bg := vInBackground()
+	_ = makeProtoRequestVoteRequest(request)
 	t.record(vSent{kind: "RV", addr: address, bg: bg, rv: request})
 	if bg || t.onRV == nil {
 		return RequestVoteResponse{}, errVBackground
@@ -77,6 +79,7 @@ func (t *vTransport) SendRequestVote(address string, request RequestVoteRequest)
 
 func (t *vTransport) SendInstallSnapshot(address string, request InstallSnapshotRequest) (InstallSnapshotResponse, error) {
 	bg := vInBackground()
+	_ = makeProtoInstallSnapshotRequest(request)
 	t.record(vSent{kind: "IS", addr: address, bg: bg, is: request})
 	if bg || t.onIS == nil {
 		return InstallSnapshotResponse{}, errVBackground
